@@ -5,26 +5,26 @@ V = os.path.dirname(os.path.dirname(os.path.abspath(__file__)))
 TECH = 'CBMC contracts (harness form + goto-instrument --dfcc) on the real code lowered mechanically clang IR -> C'
 TRUST = ('Trusted: clang-14 front end (wasm64 lowering) + LLVM SROA + tools/ll2c.py (all cross-checked per run by a record-layout guard and native differential runs), '
          'CBMC 6.11 and its back ends; machine arithmetic bit-precise. ')
-SAMPLE = 'Per sample machine (resumable 6 states, nested 7, orthogonal 9, selectable 7, utility 10 (+nested 10), plan 6): all configurations and decisions symbolic, index-like inputs (destination, request kind, issuing state, active configuration where callbacks issue requests) split exhaustively into case keys. '
+SAMPLE = 'Per sample machine (resumable 6 states, nested 7, orthogonal 9, orthogonal root 7, selectable 7, utility 10 (+nested 10), plan 6): all configurations and decisions symbolic, index-like inputs (destination, request kind, issuing state, active configuration where callbacks issue requests) split exhaustively into case keys. '
 L1 = 'The quantifier over machine structures/capacities is covered by the named sample machines only (DESIGN L1); '
 CLAIMS = {
  'C01': ('proof', 'Inductive invariant (well-formed configuration, nothing half-applied, API queries agree with it) proved to be established by construction/enter() and preserved by every public entry point exercised (immediate*, queued requests + update, reset, exit/enter, load, replay, guard substitutions) from an ARBITRARY state satisfying it; registry queries proved over symbolic structure tables (Tier B). ' + SAMPLE,
          L1 + 'callbacks restricted to the stubs decision space; at most two (quick) / three queued requests per step.', '4.3 / C01'),
- 'C02': ('proof', 'Post-configuration of every approved step proved against the rules of the statement (destination and ancestors active, entered/re-targeted regions pick by request kind, untouched regions keep, resumable = sub-state last left, reset/first activation, empty step = identity); requestImmediate/requestScheduled proved over symbolic structure tables. One known finding (a later request does not override an earlier conflicting one higher up). ' + SAMPLE,
+ 'C02': ('proof', 'Post-configuration of every approved step proved against the rules of the statement (destination and ancestors active, entered/re-targeted regions pick by request kind, untouched regions keep, resumable = sub-state last left, reset/first activation, empty step = identity); requestImmediate/requestScheduled proved over symbolic structure tables. Known findings: a later request does not override an earlier conflicting one higher up; a request whose destination is a direct sub-state of an active orthogonal region re-resolves the sibling regions / is ignored under an orthogonal root. ' + SAMPLE,
          L1 + 'utilize/randomize choices are checked under C12; the dont-care of a region sitting in its own resumable prong is masked (DESIGN C02).', '4.3 / C02'),
- 'C03': ('proof', 'Ghost enter/exit monitor in every user callback: alternation, delivery only to entered states, parent-before-child, exit-after-children, exactly-once counts for enter()/exit()/reset()/load(); entered == active is part of the inductive invariant. ' + SAMPLE, L1 + 'object identity (access<State>()) is not checked.', '4.3 / C03'),
- 'C04': ('proof', 'Per-step monitor: a vetoed round leaves active and resumable sub-states unchanged and runs no lifecycle callback; substitute requests go through a round of their own; at most SUBSTITUTION_LIMIT rounds; backup/restore/!= proved over symbolic registries. One known finding (the last substitute stays queued at the limit). ' + SAMPLE,
+ 'C03': ('proof', 'Ghost enter/exit monitor in every user callback: alternation, delivery only to entered states, parent-before-child, exit-after-children, exactly-once counts for enter()/exit()/reset()/load(); every callback of a state is delivered to the object access<State>() returns; entered == active is part of the inductive invariant. ' + SAMPLE, L1, '4.3 / C03'),
+ 'C04': ('proof', 'Per-step monitor: no state is exited or entered before its own guard was consulted; a vetoed round leaves active and resumable sub-states unchanged and runs no lifecycle callback; an approved round survives the veto of a later round of the same step; substitute requests go through a round of their own; at most SUBSTITUTION_LIMIT rounds; backup/restore/!= proved over symbolic registries. One known finding (the last substitute stays queued at the limit). ' + SAMPLE,
          L1 + 'in substitution jobs only the keyed guard vetoes in round 1 (DESIGN L2); guard order within a round is not checked.', '4.3 / C04'),
- 'C05': ('proof', 'The recorded delivery sequence of update()/react()/query() is proved to be exactly: per phase, the active states in the documented order (head-first / sub-states-first), cut right after the consuming state, for a symbolic consumer and phase; query() changes nothing. ' + SAMPLE, L1 + 'top-down order only in the quick tier; injected StateT<> handlers are not modelled.', '4.3 / C05'),
+ 'C05': ('proof', 'The recorded delivery sequence of update()/react()/query() is proved to be exactly: per phase, the active states in the documented order (head-first / sub-states-first), cut right after the consuming state, for a symbolic consumer and phase; query() changes nothing. ' + SAMPLE, L1 + 'top-down order on the sample machines, bottom-up order on the Config option-chain variants of the resumable machine; injected StateT<> handlers are not modelled.', '4.3 / C05'),
  'C06': ('proof', 'Plan step on a plan-owning region: executed-task set, removal, destination, on-behalf-of-head origin, planSucceeded/planFailed notifications and mark clearing proved per (configuration, plan shape, acting state, succeed/fail). Known finding: tasks are always executed as CHANGE transitions. Plan machine: 6 states, 8 plan shapes.',
-         L1 + 'single plan-owning region (no nested plan-owning regions); succeed/fail decisions are case keys.', '4.3 / C06'),
+         L1 + 'one plan-owning region (8 plan shapes) plus one nested pair of plan-owning regions; succeed/fail decisions are case keys.', '4.3 / C06'),
  'C07': ('proof', 'PlanT append/remove/iterate/remove-while-iterating/clearTasks and PlanDataT::clear proved from an ARBITRARY plan store satisfying wf_plans (disjoint acyclic per-region lists with ghost owner/position, lengths add up) => every interleaving; at and around capacity.', 'Task capacities 1-3 quick (4, 6 thorough), 3 regions, payload void/int.', '4.2 / C07'),
  'C08': ('proof', 'save leaves the instance untouched; load into ANY configuration pair (incl. not activated) reproduces active and resumable sub-states with exactly the required enter/exit callbacks; re-save is bit-identical; stream cursor stays within SERIAL_BITS (the library assertion is an obligation). Resumable marks symbolic. ' + SAMPLE, L1, '4.3 / C08'),
- 'C09': ('proof', 'History of a step == the approved requests in order (single request, and two approved rounds in one step); lastTransitionTo within the history; replayTransitions on an identically prepared replica reproduces the active (and, single round, resumable) configuration without consulting guards. ' + SAMPLE, L1 + 'replayEnter is only exercised with the (empty) history of a plain activation.', '4.3 / C09'),
+ 'C09': ('proof', 'History of a step == the approved requests in order (single request, two approved rounds in one step, approved round followed by a vetoed one); lastTransitionTo within the history; replayTransitions on an identically prepared replica reproduces the active (and, single round, resumable) configuration without consulting guards. ' + SAMPLE, L1 + 'replayEnter is only exercised with the (empty) history of a plain activation.', '4.3 / C09'),
  'C10': ('proof', 'Two-run contracts: two instances placement-constructed into storages with arbitrary independent prior contents and driven by the same script produce identical callback traces and answers (user generator and built-in generator); a copy continues as the original; pool copies are exact.', 'One 6-state random/resumable machine; script of 32 symbolic decisions, two update() steps.', '4.3 / C10'),
  'C11': ('proof', 'The safety side of the other obligations: CBMC bounds/pointer/overflow/shift/conversion checks and the library own assertions (HFSM2_VERIF hook) on every Tier A/B job and the external-request Tier C jobs, from arbitrary invariant states (inductive => any sequence); no allocator in the lowered closure (structural abort in ll2c). Known findings: unchecked request queue, assertion at the substitution limit.',
          L1 + 'Tier C callback-issued-request jobs run without the extra safety flags in the quick tier.', '5 / C11'),
- 'C12': ('proof', 'utilize: arg-max / leftmost-on-ties for all finite non-negative utilities, recursively through nested utilitarian and orthogonal (mean) regions; randomize: never none, top rank only, never zero utility, exactly one draw - for all ranks, utilities and generator outputs in [0,1) with positive top-rank sum (floats bit-precise).', 'Region width 3, one nesting sample; exact interval membership is not asserted (rounding of the cumulative sums is implementation-defined by the statement).', '4.3 / C12'),
+ 'C12': ('proof', 'utilize: arg-max / leftmost-on-ties for all finite non-negative utilities, recursively through nested utilitarian and orthogonal (mean) regions; randomize: never none, top rank only, never zero utility, exactly one draw - for all ranks, utilities and generator outputs in [0,1) with positive top-rank sum (floats bit-precise).', 'Region width 3, three nesting samples; exact interval membership is asserted on a rounding-free grid (integer utilities, generator output m/2^20), for arbitrary floats only the qualitative clauses (the statement leaves the rounding of the cumulative sums open).', '4.3 / C12'),
  'C13': ('proof', 'isActive/activeSubState/isResumable consistency proved over SYMBOLIC structure tables (every tree that fits 10 states/3 composite/1 orthogonal forks, 10/2/2, and 8/3/0 for the second RegistryT specialisation) under the C01 registry invariant, and re-checked on the sample machines after every step; pending-query clauses decided at registry level: three known findings.',
          'wf_tree premise (what deepRegister builds) checked per sample machine only; capacities fixed.', '4.2 / C13'),
  'C14': ('proof', 'Symbolic payload values through request -> guards (pendingTransitions) -> enter (currentTransitions) -> previousTransitions/lastTransitionTo, single and paired requests with and without payload; task payload stored by append; payload-less insert into a recycled slot exposes none.', 'int32 payload on the resumable machine; plan-task payload only at storage level.', '4.3 / C14'),
@@ -35,10 +35,12 @@ CLAIMS = {
          'Capacities 1-4 quick (+5,8 thorough), payload void and int.', '4.1 / C19'),
  'C20': ('proof', 'Each generator step, jump(), seeding routine and float conversion is proved equal to the transcribed published reference / inside [0,1) for EVERY state, seed and input (32- and 64-bit variants); the seeding loop is proved to terminate within two iterations; seeding chain verified modularly through enforced code contracts (goto-instrument --dfcc, --replace-call-with-contract).',
          'Reference algorithms transcribed by hand from the published sources.', '4.1 / C20'),
+ 'C15': ('other', 'The same contracts (step obligations of the resumable machine, Tier A samples) are discharged under four feature sets and under both header flavours; each proof unit compiled against the single header and against the development headers must lower to identical LLVM IR function by function (translation validation of tools/join.py output); Config option chains (bottom-up reactions alone / with head-room options chained after / before it) must satisfy the unchanged delivery-order and step contracts.',
+         '4 of 16 feature combinations, 3 option chains, one machine; no relational (product) harness: "unrelated behaviour unchanged" is decided through contracts that do not mention the switched feature.', '5 / C15, 11.6'),
+ 'C17': ('other', 'Per-shape contracts on the run-time residue of the compile-time type arithmetic (registry tables written by deepRegister(), stateId<>()/regionId<>(), Control::stateId() and region scope seen by callbacks, published counts) against numbers computed from the declaration alone, for a named family of 40 (quick) / 71 (thorough) shapes incl. seeded random trees; every obligation of every shape discharged by CBMC on the lowered real code.',
+         'The quantifier over ALL machine structures is covered by the shape family only (not a proof of C17); tools/shapes.py (expected numbers) is trusted; the arithmetic itself is evaluated by clang, CBMC sees its results.', '11.9'),
 }
 NA = {
- 'C15': 'feature/flavour matrix not built yet in this round (the technique applies: same contracts under each configuration); see DESIGN 11',
- 'C17': 'compile-time template arithmetic: no run-time function a contract can be attached to (DESIGN.md section 1, L3)',
 }
 # properties whose check has been run end-to-end on the unchanged tree (exit 0, valid evidence); the others stay under not_applicable until then
 READY = ['C13', 'C18', 'C19', 'C20']
